@@ -339,11 +339,61 @@ macro_rules! lazy_harness {
 }
 lazy_harness!(c03_lazy_or, 0);
 lazy_harness!(c03_lazy_and, 1);
-// NOTE (measured): even the minimal template `c ? 5 : 7` (values only) was at 8 GB after 8 min:
-// eval() continues with `if cond { then_ast } else { else_ast }`, i.e. a symbolically selected
-// sub-slice, and the recursive call then explores every Ast variant down to the unwinding bound.
-// The laziness AND the condition test of ?: are outside the claim (seed C03-r2-conditional-tests-
-// positive is missed).
-// The ?: templates (2-4) are kept for reference but not registered as harnesses: with the
-// Conditional node CBMC needed > 8 GB and gave no answer in 11 min (the nested one ran out of
-// memory at 16 GB), so the laziness of ?: is outside the claim.
+// ?: — one template per harness; recursion of eval() is bounded per template through
+// --unwindset (core.Harness.recursion_bounds) instead of the global unwind: the branch taken is a
+// symbolically selected sub-slice, so every further level of recursion multiplies the formula by
+// the number of Ast variants (with the global bound 6 the minimal template was at 8 GB after
+// 8 min).
+/// Stand-in for `assign` in the ?: harnesses: the same call to the environment (so a skipped
+/// operand that assigned would still be seen) without formatting the value — `Value::to_string`
+/// pulls `core::fmt` into every explored variant of the symbolically selected branch.
+fn assign_no_fmt<E: crate::env::Env>(
+    name: &str,
+    value: Value,
+    location: std::ops::Range<usize>,
+    env: &mut E,
+) -> Result<Value, super::Error<E::GetVariableError, E::AssignVariableError>> {
+    match env.assign_variable(name, String::new(), location.clone()) {
+        Ok(()) => Ok(value),
+        Err(e) => Err(super::Error { cause: EvalError::AssignVariableError(e), location }),
+    }
+}
+
+macro_rules! cond_harness {
+    ($name:ident, $t:expr) => {
+        #[kani::proof]
+        #[kani::unwind(6)]
+        #[kani::stub(super::assign, assign_no_fmt)]
+        fn $name() {
+            lazy($t);
+        }
+    };
+}
+// Measured: with eval() recursion bounded to 3 levels and `assign` stubbed, the three templates
+// below still unwind 112 copies of eval() (1.9 M symex steps) and run out of memory at 24 GB in
+// propositional reduction.  They are not registered; the LAZINESS of ?: stays outside the claim,
+// its CONDITION TEST is decided by c03_cond_select below (recursion depth 2 suffices there).
+#[cfg(any())]
+mod unregistered {
+    cond_harness!(c03_cond_then_err, 2);
+    cond_harness!(c03_cond_else_err, 3);
+    cond_harness!(c03_cond_nested, 4);
+}
+
+/// Bound: template `c ? a : b`, c, a, b any i64.  Decided: the value is a when c != 0, else b.
+#[kani::proof]
+#[kani::unwind(6)]
+fn c03_cond_select() {
+    let c: i64 = kani::any();
+    let a: i64 = kani::any();
+    let b: i64 = kani::any();
+    let mut env = Rec { assigned_x: 0, assigned_y: 0, last_len: 0 };
+    let r = eval(&[val(c), val(a), val(b), Ast::Conditional { then_len: 1, else_len: 1 }], &mut env);
+    let r = match r {
+        Ok(term) => super::into_value(term, &env),
+        Err(e) => Err(e),
+    };
+    let want = if c != 0 { a } else { b };
+    assert!(matches!(r, Ok(Value::Integer(v)) if v == want), "C03 ?: selects the second operand iff the first is non-zero");
+    kani::cover!(c < 0, "negative condition reachable");
+}
